@@ -605,6 +605,7 @@ func genC18(r *rand.Rand, tier string, idx int) *World {
 	w.Cfg = Config{ChaosSteps: pick(r, 10, 30, 60), Kubelet: true, SettingEdits: true, NodeChurn: chance(r, 0.4), Stall: chance(r, 0.3), MapOrder: 0}
 	if idx%2 == 1 {
 		w.Cfg.PReject = pick(r, 0.0, 0.05, 0.15)
+		w.Cfg.TargetCall = pick(r, "", " list ExtendedDaemonsetSetting ", " list Node ")
 	}
 	return w
 }
@@ -1383,6 +1384,7 @@ func genC05(r *rand.Rand, tier string, idx int) *World {
 	w.Cfg.Stall = true
 	w.Cfg.ChaosSteps = pick(r, 15, 30, 60, 100)
 	w.Extra["c05"] = "1"
+	w.Cfg.PatchDenied = chance(r, 0.1)
 	w.Extra["dropActive"] = pick(r, "0", "0", "0", "1", "2")
 	return w
 }
@@ -1505,6 +1507,7 @@ func init() {
 			w.Extra["namedEdits"] = "1"
 		}
 		w.Cfg.LabelEdits = chance(r, 0.3)
+		w.Cfg.PodTplEdits = chance(r, 0.3)
 		if chance(r, 0.25) {
 			// every template also exists in a second spelling of its memory request: another template
 			// for the controller (new hash, new replica set, new PodTemplate content), an equal one semantically
